@@ -21,22 +21,21 @@ Open Scope Z_scope.
 Theorem C11_served_requires_permit : forall w s ev,
   reachable w s ->
   let o := snd (step w s ev) in
-  is_request ev = true -> fst (target s ev) = APull -> ev_ok s ev = true ->
+  is_request ev = true -> fst (target s ev) = APull ->
   granted ev o = true -> keepalive s ev = false ->
   exists u r, identity s ev = Some u /\ rights_now (users s) u = Some r /\
               permits r PULL (served_key (snd (target s ev))) = true.
-Proof. exact served_requires_permit. Qed.
+Proof. exact served_requires_permit_always. Qed.
 Print Assumptions C11_served_requires_permit.
 
 Theorem C11_published_requires_permit : forall w s ev,
   reachable w s ->
   let o := snd (step w s ev) in
   (match ev with ERtsp _ _ _ _ | EWsRtsp _ _ _ => True | _ => False end) ->
-  ev_ok s ev = true ->
   zlist_eqb (o_reg o) (reg_view w (reg s)) = false ->
   exists u r, identity s ev = Some u /\ rights_now (users s) u = Some r /\
               fst (target s ev) = APush /\ permits r PUSH (served_key (snd (target s ev))) = true.
-Proof. exact published_requires_permit. Qed.
+Proof. exact published_requires_permit_always. Qed.
 Print Assumptions C11_published_requires_permit.
 
 (* what is served is the resource the decision was about: whenever a description or media stream reaches an RTSP,
@@ -45,6 +44,18 @@ Print Assumptions C11_published_requires_permit.
 Theorem C11_served_is_the_decided_resource : forall w s ev, judge_src w s ev (snd (step w s ev)) = true.
 Proof. exact step_src. Qed.
 Print Assumptions C11_served_is_the_decided_resource.
+
+(* since CanonicalPath is idempotent (Proofs/CanonProofs.v, /repo 1c2de2b) the class ev_ok is everything: every path a
+   reachable state hands to a permission check is a canonical path, which the pattern language and the registry read
+   as the same resource; the strict oracle accepts the model on every history *)
+Theorem C11_guard_always_holds : forall w s ev, reachable w s -> ev_ok s ev = true.
+Proof. exact ev_ok_reachable. Qed.
+Print Assumptions C11_guard_always_holds.
+
+Theorem C11_model_passes_strict : forall w users0 ext evs,
+  ok_run_strict w (state0 users0 ext) evs (run w (state0 users0 ext) evs) = true.
+Proof. exact model_passes_strict. Qed.
+Print Assumptions C11_model_passes_strict.
 
 (* two spellings with the same segments are the same path to the documented language; hence on ev_ok the decision
    on the path the code checks is the decision on the served resource *)
@@ -156,10 +167,10 @@ Print Assumptions C11_access_check_is_spec.
 
 (* callers who hold the right are not refused *)
 Theorem C11_holder_not_refused : forall w s ev,
-  reachable w s -> is_request ev = true -> ev_ok s ev = true ->
+  reachable w s -> is_request ev = true ->
   allowed s ev = true -> feasible w s ev = true ->
   accepted ev (snd (step w s ev)) = true.
-Proof. exact holder_of_served_not_refused. Qed.
+Proof. exact holder_of_served_not_refused_always. Qed.
 Print Assumptions C11_holder_not_refused.
 
 (* the rights are those last saved: after a save exactly the saved ones, after a delete none, others untouched;
